@@ -53,7 +53,7 @@ def matOf (nz : List Pos) (vals : List Rat) (p : Pos) : Rat :=
   | some qv => qv.2
   | none => 0
 
-def handle (j : Json) : Option Json := do
+def handle1 (j : Json) : Option Json := do
   let op ← fieldStr? j "op"
   match op with
   | "color" =>
@@ -71,9 +71,8 @@ def handle (j : Json) : Option Json := do
     let P ← getPattern? j
     let C ← field? j "col" >>= getColoring?
     let ok := certify P C
-    let (bad, outside) := if ok then ([], []) else certifyFailures P C
-    pure (jObj [("ok", jBool ok), ("wf", jBool P.wf), ("bad", jArr jPos bad),
-                ("outside", jArr jPos outside)])
+    let bad := if ok then [] else certifyFailures P C
+    pure (jObj [("ok", jBool ok), ("wf", jBool P.wf), ("bad", jArr jPos bad)])
   | "auto" =>
     let P ← getPattern? j
     let B ← field? j "bidir" >>= getColoring?
@@ -90,7 +89,7 @@ def handle (j : Json) : Option Json := do
     let vals ← fieldRats? j "vals"
     let M := matOf P.nz vals
     let comp := compress C M
-    let J : Pos → Rat ←
+    let J : Jac Rat ←
       match field? j "rowscale", field? j "colscale" with
       | some rs, some cs => do
         let rs ← getList? rs >>= fun l => l.mapM getRat?
@@ -99,8 +98,18 @@ def handle (j : Json) : Option Json := do
         pure (recoverScaled late C (fun p => rs.getD p.1 1 * cs.getD p.2 1) comp)
       | _, _ => pure (recover C comp)
     let outside := (C.writePositions.filter (fun q => !P.nz.contains q)).eraseDups
-    pure (jObj [("J", jRats (P.nz.map J)),
-                ("outside", jArr (fun q => Json.arr #[jPos q, jRat (J q)]) outside)])
+    pure (jObj [("J", jRats (P.nz.map (getAt J))),
+                ("outside", jArr (fun q => Json.arr #[jPos q, jRat (getAt J q)]) outside)])
   | _ => none
+
+/-- `{"op":"batch", <pattern>, "reqs":[...]}`: every sub-request inherits the pattern fields. -/
+def handle (j : Json) : Option Json := do
+  let op ← fieldStr? j "op"
+  if op == "batch" then
+    let reqs ← fieldList? j "reqs"
+    let base := (j.setObjVal! "reqs" Json.null)
+    let res ← reqs.mapM fun r => handle1 (base.mergeObj r)
+    pure (jObj [("res", Json.arr res.toArray)])
+  else handle1 j
 
 def main : IO Unit := runDriver handle
